@@ -19,6 +19,12 @@ the *implementation's* output:
 
 For the machine-integer back-end `solve`/`inverse` may return `None` on systems that are
 consistent over ℚ (the property only demands completeness "over a field").
+
+Machine integers and overflow (evaluated in Driver/C18.lean with the overflow-checked
+model): when an intermediate of the `i64` elimination leaves `[-2^63, 2^63)` and the exact
+answer does not fit an `i64` either, the case is outside the property (DESIGN §5.6); when
+the exact answer does fit and the implementation panics or answers something else, the
+verdict is `machine-integer-overflow` (checked before all other clauses).
 -/
 namespace DSymVerif.SpecC18
 
